@@ -27,7 +27,7 @@ func (w *c02World) tcTruth(t *c02TC) (bool, string) {
 	}
 	signers := map[uint64]bool{}
 	for _, c := range t.sig.contribs {
-		if c.msg.kind == 'V' && c.msg.view == t.view && c.signer >= 1 && c.signer <= uint64(w.n) {
+		if c.msg.kind == 'V' && c.msg.view == t.view && w.isMember(c.signer) {
 			signers[c.signer] = true
 		}
 	}
@@ -55,6 +55,10 @@ func (w *c02World) evalTC(st *c02Streams, t *c02TC, mut string, honest bool) {
 				}
 			}
 			meta := w.meta("tc", mut, t.term, vi, cache, o)
+			if !cache && w.grow == nil {
+				ol := c02Run(func() error { return w.long[vi].VerifyTimeoutCert(t.obj) })
+				w.oracle(ol == o, "tc:stateful-verdict", "a long-lived Authority (no cache) answers "+ol+" where a fresh one answers "+o, meta)
+			}
 			w.v.Seen(fmt.Sprintf("tc|%s|%d|%s|%d|%v", w.scheme, w.n, t.term, vi, cache), len(t.sig.labels) >= w.q && t.view != 0, meta)
 			w.v.Count("tc:" + mut)
 			w.v.Count("tc-verdict:" + o)
@@ -90,7 +94,7 @@ func c02TCStream(w *c02World, st *c02Streams) {
 		w.evalTC(st, w.mkTC(mixed, 4), "mixed-views", false)
 		w.evalTC(st, w.mkTC(mixed, 5), "mixed-views", false)
 	}
-	if w.n <= 4 {
+	if w.n <= 4 && !w.sparse {
 		ids := w.n + 1
 		var rec func(prefix []uint64)
 		rec = func(prefix []uint64) {
@@ -104,7 +108,7 @@ func c02TCStream(w *c02World, st *c02Streams) {
 		}
 		rec(nil)
 	}
-	for k := 0; k < w.v.Pick(20, 300); k++ {
+	for k := 0; k < w.rnd(20, 300); k++ {
 		sp, _ := w.randomSpec(mV, []c02Msg{mV2, mB, w.mView(3)})
 		view := uint64(4)
 		if w.v.rng.Intn(8) == 0 {
